@@ -186,8 +186,9 @@ structure LogSt where
 
 def LogSt.init : LogSt := ⟨.zero, 0, 0, []⟩
 
-/-- `lbl[0]`, `lbl[1]` in the `__ttl_days__` scan, `validUTF8Labels` (`l[0]`, `l[1]`), `fingerprintLabels` and
-    `encodeLabels` (jx encoder: `e.FieldStart(l[0]); e.Str(l[1])`). The series rows are decided by
+/-- `lbl[0]`, `lbl[1]` in the `__ttl_days__` scan, `validUTF8Labels` (`l[0]`, `l[1]`), `fingerprintLabels`,
+    `encodeLabels` (jx encoder: `e.FieldStart(l[0]); e.Str(l[1])`) and, before the callback, `sanitizeLabels`
+    (`lbls[i][0]`, `lbls[i][1]`) — placed site `labelPairs` of the census (`Ingest/FaultCensus.lean`: `modelSites`). The series rows are decided by
     `parserDoer.maybeAddFp` per (day, fingerprint, type); it writes `p.seenFpKeys`, a map that `doParseLogs`
     allocates before the parser goroutine starts (a nil map would fault on the first write); the cache keys
     travel with the portion (`TimeSeriesFpKeys`) and `doParse` sets them after every promise resolved without
